@@ -2,6 +2,7 @@
 package c01
 
 import (
+	"bytes"
 	stded "crypto/ed25519"
 	"fmt"
 	"math/big"
@@ -86,7 +87,18 @@ func judge(class string, key []byte, o *fw.Obs) {
 	}
 	want := ed.VerifyZIP215(pub, msg, sig)
 	var got bool
-	if !o.Try("ed25519.Verify", func() { got = ed25519.Verify(ed25519.PublicKey(pub), msg, sig) }) {
+	// the three inputs are windows into larger buffers (a wire message pk||sig||msg): they and the memory
+	// behind them must be what they were after the call
+	var sp fw.SpareSet
+	pubIn, msgIn, sigIn := sp.Of("public key", pub, 96), sp.Of("message", msg, 96), sp.Of("signature", sig, 96)
+	if !o.Try("ed25519.Verify", func() { got = ed25519.Verify(ed25519.PublicKey(pubIn), msgIn, sigIn) }) {
+		return
+	}
+	if !sp.Check(o) {
+		return
+	}
+	if !bytes.Equal(pubIn, pub) || !bytes.Equal(msgIn, msg) || !bytes.Equal(sigIn, sig) {
+		o.Fail("mutation", "Verify modified its inputs: public key %x message %x signature %x", pubIn, msgIn, sigIn)
 		return
 	}
 	o.Count(fmt.Sprintf("model=%s impl=%s", ar(want), ar(got)))
